@@ -90,7 +90,7 @@ def check_decl(dc, st, tier, only=None):
     if only is not None:
         check_input(dc, st, only['raw'])
         return
-    budget = ea.budget_for(dc, tier)
+    budget = ea.budget_for(dc, tier, thorough=2500)
     for raw, r in ea.inputs_for(dc, budget, ext=True if dc.spec.get('tag') else None):
         check_input(dc, st, raw, r)
 
